@@ -4,7 +4,9 @@ time) stays polynomial when the nesting depth of a construct doubles."""
 from __future__ import annotations
 
 import multiprocessing as mp
+import os
 import random
+import sys
 import time
 
 from bounded import nixgen as G
@@ -86,6 +88,56 @@ def _count_calls(text):
     return counter[0]
 
 
+# Long runs of one character: time that is exponential in a run length does not show in rebuild-call counts.  Each text is
+# parsed and rebuilt in a child process with a generous CPU budget (milliseconds are normal; the budget only trips on blow-up).
+def _runs():
+    k = 200
+    yield "indented-own-line-comment-after-=", "{\n  x =\n" + " " * k + "# why\n    1;\n}\n"
+    yield "indented-own-line-comment-in-paren", "(\n" + " " * k + "# why\n  a)\n"
+    yield "indented-own-line-comment-before-argument", "f\n" + "\t" * 100 + "# why\n  a\n"
+    yield "blank-lines-with-spaces", "{\n  a = 1;\n" + (" " * 30 + "\n") * 6 + "  b = 2;\n}\n"
+    yield "many-newlines", "a" + "\n" * k + "+ b\n"
+    yield "long-comment-line", "# " + "x " * 100 + "\na\n"
+    yield "long-string", '"' + "ab\\n${c}" * 25 + '"\n'
+    yield "crlf-run", "{ a = 1;" + "\r\n" * 100 + "}\n"
+    yield "spaces-before-semicolon", "{ a = 1" + " " * k + "; }\n"
+    yield "nested-block-comment-stars", "/*" + "*" * k + "*/ a\n"
+
+
+_RUN_CHILD = """
+import sys, time
+from nix_manipulator import parse
+t = open(sys.argv[1], encoding='utf-8', newline='').read()
+c0 = time.process_time()
+try:
+    parse(t).rebuild()
+except ValueError:
+    pass
+print(time.process_time() - c0)
+"""
+
+
+def _run_budget(item):
+    import subprocess
+    import tempfile
+
+    name, text = item
+    with tempfile.NamedTemporaryFile("w", suffix=".nix", delete=False, encoding="utf-8", newline="") as fh:
+        fh.write(text)
+        path = fh.name
+    try:
+        env = dict(os.environ, PYTHONPATH=os.environ.get("NIMA_REPO", "/repo"))
+        try:
+            r = subprocess.run([sys.executable, "-c", _RUN_CHILD, path], capture_output=True, text=True, timeout=60, env=env)
+        except subprocess.TimeoutExpired:
+            return name, text, None, "no result within 60 s"
+        if r.returncode != 0:
+            return name, text, None, "child failed: " + r.stderr.strip().splitlines()[-1][:120] if r.stderr.strip() else "child failed"
+        return name, text, float(r.stdout.strip().splitlines()[-1]), None
+    finally:
+        os.unlink(path)
+
+
 def _cost(args):
     name, d = args
     import sys
@@ -141,6 +193,7 @@ def run(tier, seed):
     with mp.get_context("fork").Pool(16) as pool:
         res = pool.map(_exc_chunk, [c for c in chunks if c], chunksize=1)
         costs = pool.map(_cost, [(name, depth) for name in FAMILIES], chunksize=1)
+        budgets = pool.map(_run_budget, list(_runs()), chunksize=1)
     n = sum(r[0] for r in res)
     by_sig = {}
     for _, bad in res:
@@ -151,6 +204,12 @@ def run(tier, seed):
             if sig not in by_sig:
                 by_sig[sig] = dict(check="exceptions", signature=sig, what=f"C20 {sym} on {p['text']!r}", inputs={"text": p["text"]},
                                    has_input=True, failing_input={"inputs": {"text": p["text"]}, "observed": sym, "origin": "bounded enumeration"})
+    for name, text, secs, err in budgets:
+        if err is not None or secs > 10.0:
+            sig = f"time-budget-exceeded|{name}"
+            by_sig[sig] = dict(check="time", signature=sig, has_input=True, inputs={"run": name},
+                               what=f"C20 parse+rebuild of a {len(text)}-character text with a long run ({name}): " + (err or f"{secs:.1f} s CPU (normal: milliseconds)"),
+                               failing_input={"inputs": {"text": text}, "observed": err or f"{secs:.1f} s CPU", "origin": "long-run family"})
     cost_rows = []
     for name, d, c1, c2, err in costs:
         cost_rows.append(dict(family=name, depth=d, calls_d=c1, calls_2d=c2, note=err))
@@ -171,6 +230,14 @@ def run(tier, seed):
 def replay(v):
     from nix_manipulator import parse
 
+    if v.get("check") == "time":
+        item = [it for it in _runs() if it[0] == v["inputs"]["run"]][0]
+        name, text, secs, err = _run_budget(item)
+        print(name, secs, err)
+        if err is not None or secs > 10.0:
+            print("VIOLATION property=C20 replay=<given>")
+            return 1
+        return 0
     if v.get("check") == "cost":
         name, d = v["inputs"]["family"], v["inputs"]["depth"]
         c1, c2 = _count_calls(FAMILIES[name](d)), _count_calls(FAMILIES[name](2 * d))
